@@ -151,21 +151,21 @@ def format_preserved(F, S):
     out = []
     wc = F.fn(AR + "WaveHeader::Create", nparams=2)
     wf = ("var", wc.params[0]["n"], wc.params[0]["d"])
-    stores = []
-    for nd in wc.nodes:
-        if is_store(nd) or (nd["k"] == "CXXOperatorCallExpr" and nd.get("op") == "="):
-            a = nd.get("args") or wc.kids(nd["id"])
-            l = c05.resolve(wc.term(a[0]), c05.alias_defs(wc))
-            if "waveFormat" in repr(l) and l[0] == "mem":
-                stores.append((nd, l, wc.term(a[1]) if len(a) > 1 else None))
-    whole = [x for x in stores if x[1][2] == "waveFormat" and x[2] == wf]
-    other = [x for x in stores if x not in whole and not (x[1][2] == "cbSize" and x[2] == ("const", 0))]
+    from ..through import built_record
+    built = built_record(F, wc)
+    if built is None:
+        raise AnalysisBroken("WaveHeader::Create: the way the header is built is not recognised (assignments to a local, or a braced initialiser)")
+    fpath = ("formatChunk", "waveFormat")
+    under = {k: v for k, v in built.items() if k[:2] == fpath}
     inst = AR + "WaveHeader::Create#format-copied"
     req = "the header's format block is the given WaveFormatEx copied whole, with only cbSize reset to 0"
-    if len(whole) == 1 and not other:
-        out.append(ok("R-SIB", inst, wc.loc(whole[0][0]["id"]), wc.qn, req, "waveFormat = waveFormat; cbSize = 0"))
+    whole_ok = under.get(fpath) == ("whole", wf)
+    other = {k: v for k, v in under.items() if k != fpath and not (k == fpath + ("cbSize",) and v == ("const", 0))}
+    if whole_ok and not other:
+        out.append(ok("R-SIB", inst, wc.loc(wc.body), wc.qn, req, "waveFormat = waveFormat; cbSize = 0"))
     else:
-        out.append(bad("R-SIB", inst, wc.loc(wc.body), wc.qn, req, "other stores into the format block: %s" % ", ".join(fmt_term(wc.term(x[0]["id"])) for x in other) or "no whole copy"))
+        out.append(bad("R-SIB", inst, wc.loc(wc.body), wc.qn, req, ("other values in the format block: %s" % ", ".join("%s = %s" % (".".join(k), fmt_term(v) if v[0] != "whole" else "copy of " + fmt_term(v[1])) for k, v in sorted(other.items())))
+                       if whole_ok else "no whole copy of the given format"))
     rh = F.fn(CLM + "::ReadAllWaveHeaders", nparams=3)
     rdefs = c05.alias_defs(rh)
     fmts = [("var", p["n"], p["d"]) for p in rh.params if "WaveFormatEx" in (p.get("ct") or "")][0]
